@@ -3,8 +3,9 @@
                     ->  unicodesub, cleanstring  ->  Base._stringtokenvalue
    proved for every REPRESENTABLE value (rep_ok: every value except those with an escape-introducing
    backslash directly before a double quote - kept as it is by helper.string because the pinned test
-   test_value.py:411 asserts that output - or a backslash before a newline character, which the
-   tokenizer's cleanstring removes) and every following text; refuted for the excluded quote case.   *)
+   test_value.py:411 asserts that output - or a backslash before a newline character, which is written as
+   backslash + newline escape and deleted by the tokenizer's cleanstring: finding C03-backslash-before-newline)
+   and every following text; refuted for the excluded quote case.                                     *)
 From CssV Require Import Base Regex RegexFacts RegexTotal Gen.Productions Gen.TokTables Gen.PyTables
      Tokenizer TokenizerFacts Quote Gen.Quote.
 
